@@ -6,6 +6,10 @@ EXTENDS OFXAccess, TraceBase
 
 VARIABLE l
 
+RECURSIVE Plain(_)
+Plain(inst) == [cls |-> inst.cls,
+                els |-> [i \in 1..Len(inst.els) |-> <<inst.els[i][1], IF IsInst(inst.els[i][2]) THEN Plain(inst.els[i][2]) ELSE inst.els[i][2]>>],
+                mem |-> [i \in 1..Len(inst.mem) |-> IF IsInst(inst.mem[i]) THEN Plain(inst.mem[i]) ELSE inst.mem[i]]]
 Judge(e) ==
   CASE e.op = "getattr" ->
          LET r == Lookup(e.inst, e.name) IN
@@ -16,7 +20,11 @@ Judge(e) ==
     [] e.op = "shortcut" ->
          LET r == Shortcut(e.inst, e.name) IN
          IF r.k = "open" THEN <<>>
-         ELSE << <<"shortcut " \o e.inst.cls \o "." \o e.name \o " expected " \o r.k, e.out = r>> >>
+         ELSE << <<"shortcut " \o e.inst.cls \o "." \o e.name \o " expected " \o r.k, e.out = r>>,
+                 \* e.after: the receiver projected again after the call
+                 <<"only-statements-staple " \o e.inst.cls \o "." \o e.name, ExtrasOK(e.after)>>,
+                 <<"statements-staple-wrapper-ids " \o e.inst.cls, (e.name = "statements" /\ r.k = "nodes") => StapledAfter(e.after, r.ps)>>,
+                 <<"shortcut-leaves-model " \o e.inst.cls \o "." \o e.name, Plain(e.after) = Plain(e.inst)>> >>
     [] e.op = "clone" ->
          << <<"clone-" \o e.how \o "-works " \o e.inst.cls, e.out.ok>>,
             <<"clone-" \o e.how \o "-equal " \o e.inst.cls, e.out.ok => e.out.inst = e.inst>> >>
